@@ -217,6 +217,16 @@ func Main(t *testing.T, w *World) {
 	maxViol := int(envInt("VERIF_MAX_VIOL", 3))
 	hashes := map[uint64]bool{}
 	seenSig := map[string]bool{}
+	// classes listed in KNOWN_FINDINGS.json for this property (passed by the
+	// wrapper): still replay-verified and reported, but not minimised and not
+	// counted toward the per-worker violation limit
+	knownClass := map[string]bool{}
+	for _, c := range strings.Split(os.Getenv("VERIF_KNOWN_CLASSES"), ",") {
+		if c != "" {
+			knownClass[c] = true
+		}
+	}
+	unknownViol := 0
 	leakTotal := 0
 	for i := from; i < to; i++ {
 		if budget > 0 && time.Since(wallStart) > budget {
@@ -272,7 +282,10 @@ func Main(t *testing.T, w *World) {
 		seenSig[key] = true
 		rep := Replay{Property: prop, World: w.Name, Seed: seed, RunIndex: i, RandSeed: randSeed, PreemptMean: mean,
 			Choices: res.Choices, Violation: v, LogHash: fmt.Sprintf("%016x", res.LogHash), OrigChoices: len(res.Choices)}
-		w.minimise(t, prop, &rep)
+		known := knownClass[v.Class]
+		if !known {
+			w.minimise(t, prop, &rep)
+		}
 		// determinism check: the (minimised) replay must reproduce signature and hash twice
 		r1 := w.exec(t, prop, simrt.ReplayChoices(rep.Choices), rep.PreemptMean, rep.RandSeed, 60)
 		r2 := w.exec(t, prop, simrt.ReplayChoices(rep.Choices), rep.PreemptMean, rep.RandSeed, 0)
@@ -285,7 +298,10 @@ func Main(t *testing.T, w *World) {
 		rep.LogHash = fmt.Sprintf("%016x", r1.LogHash)
 		rep.LogTail = append(append([]string(nil), r1.LogHead...), r1.LogTail...)
 		wr.Violations = append(wr.Violations, rep)
-		if len(wr.Violations) >= maxViol {
+		if !known {
+			unknownViol++
+		}
+		if unknownViol >= maxViol {
 			break
 		}
 	}
@@ -303,8 +319,9 @@ func (w *World) minimise(t *testing.T, prop string, rep *Replay) {
 	deadline := time.Now().Add(time.Duration(envInt("VERIF_MIN_MS", 60000)) * time.Millisecond)
 	want := rep.Violation
 	cur := append([]uint32(nil), rep.Choices...)
+	expired := func() bool { return budget <= 0 || time.Now().After(deadline) }
 	try := func(cand []uint32) bool {
-		if budget <= 0 || time.Now().After(deadline) {
+		if expired() {
 			return false
 		}
 		budget--
@@ -317,7 +334,7 @@ func (w *World) minimise(t *testing.T, prop string, rep *Replay) {
 	}
 	// 1. shortest failing prefix (binary search; rest reads as 0)
 	lo, hi := 0, len(cur)
-	for lo < hi && budget > 0 {
+	for lo < hi && !expired() {
 		mid := (lo + hi) / 2
 		if try(cur[:mid]) {
 			hi = mid
@@ -329,8 +346,8 @@ func (w *World) minimise(t *testing.T, prop string, rep *Replay) {
 		cur = cur[:hi]
 	}
 	// 2. zero chunks
-	for size := len(cur) / 2; size >= 1 && budget > 0; size /= 2 {
-		for start := 0; start < len(cur) && budget > 0; start += size {
+	for size := len(cur) / 2; size >= 1 && !expired(); size /= 2 {
+		for start := 0; start < len(cur) && !expired(); start += size {
 			end := start + size
 			if end > len(cur) {
 				end = len(cur)
@@ -358,8 +375,8 @@ func (w *World) minimise(t *testing.T, prop string, rep *Replay) {
 		}
 	}
 	// 3. delete chunks (shifts later choices; only kept if the same violation recurs)
-	for size := len(cur) / 2; size >= 1 && budget > 0; size /= 2 {
-		for start := 0; start+size <= len(cur) && budget > 0; {
+	for size := len(cur) / 2; size >= 1 && !expired(); size /= 2 {
+		for start := 0; start+size <= len(cur) && !expired(); {
 			cand := append(append([]uint32(nil), cur[:start]...), cur[start+size:]...)
 			if try(cand) {
 				cur = cand
